@@ -387,6 +387,8 @@ def run(ctx):
                 ctx.violation("ivpadj/tuple-state/%s" % method, "solve_ivp(%s) with a list-of-tensors state on the %s grid: %s" % (method, gname, why), {"method": method, "grid": gname})
     from vlib import gradpattern
     ctx.replayed = gradpattern.replay(ctx, ["solve_ivp"], "ivpadj")
+    from vlib import objstate
+    ctx.replayed += objstate.replay(ctx, ["solve_ivp"], "ivpadj")
     from vlib import bckhistory
     ctx.replayed += bckhistory.replay(ctx, ["solve_ivp"], "ivpadj", 3)
     ctx.samples.append(traces[0])
